@@ -25,7 +25,8 @@ CHECK = {
                      "ClusterVerif/Lemmas/C01.lean", "ClusterVerif/Lemmas/PinMap.lean",
                      "ClusterVerif/Model/C01Commit.lean", "ClusterVerif/Lemmas/C01Commit.lean", "ClusterVerif/Gen/C01Commit.lean",
                      "ClusterVerif/Model/C01Gate.lean", "ClusterVerif/Model/C01Shutdown.lean", "ClusterVerif/Lemmas/C01Shutdown.lean",
-                     "ClusterVerif/Gen/C01Shutdown.lean", "ClusterVerif/Model/C01Folder.lean", "ClusterVerif/Spec/C01Folder.lean"],
+                     "ClusterVerif/Gen/C01Shutdown.lean", "ClusterVerif/Model/C01Folder.lean", "ClusterVerif/Spec/C01Folder.lean",
+                     "ClusterVerif/Model/C01FolderTerm.lean"],
     "rule": "one case = one history: a SUBMITTED sequence of 0-60 pin/unpin operations, each run through the real commit() up to its first attempt "
             "(token G: refused operations - origins, Reference=cid.Undef, undefined Cid - are answered with an error and are not committed; the model's "
             "Op.decodable must agree with every bit), the committed sequence being the LogOps over 6 CIDs (all pin types, modes/depths incl. disagreeing ones, "
@@ -48,7 +49,8 @@ CHECK = {
             "raft.SnapshotSave (state import: over an existing snapshot, into a folder that never held a node, after a cleanup; cids added in unsorted order; the empty state), "
             "Consensus.Clean on the live node (must be refused) and on the stopped one, restart and more operations on top; after EVERY step what a reader sees (State() when up, OfflineState "
             "when down) must be exactly the acknowledged state (clause folder_exact; an import replaces it, a cleanup empties it), no cleanup may be acknowledged under a running node (clean_guard), "
-            "and result + observation + snapshot metadata taken over (k) or fresh (f) are compared with Model/C01Folder. "
+            "and result + observation + snapshot metadata taken over (k) or fresh (f) are compared with the TERM-AWARE model Model/C01FolderTerm (round 8c: snapshots ordered by (term, index) as "
+            "FileSnapshotStore.List does, CurrentTerm restarting after CleanupRaft, the log suffix behind the restored snapshot replayed at start), so the K01e cases agree with the model (agree=1, arm fold+shutdown-snapshot-not-newest) and fail folder_exact only. "
             "The undecodable stream draws origins, Reference=cid.Undef and undefined Cid. non-trivial = at least one entry applied; distinct by case line",
     "trusted_base": [
         "Raft (hashicorp/raft + raft-boltdb) delivers one committed sequence to every member, keeps every entry after a member's newest snapshot, "
@@ -64,7 +66,8 @@ CHECK = {
         "unconditionally before rw.raft.Shutdown(), the wait context derived from context.Background(), which errors of the wait take the snapshot-anyway arm, the snapshot after the wait, "
         "the newest snapshot opened by the offline read and nothing replayed; unknown statement shapes give recognised := false (the model then never snapshots)",
         "suite fold: the state is compared as the set of pinned cids (default pin options); only clean shutdowns, so the log suffix behind the newest snapshot is empty whenever the tools run; "
-        "Model/C01Folder is the INTENDED behaviour of SnapshotSave/CleanupRaft (hand-written, no translator)",
+        "Model/C01Folder is the INTENDED behaviour of SnapshotSave/CleanupRaft, Model/C01FolderTerm what the code does with Raft terms and indexes (both hand-written, no translator; indexes are "
+        "monotone stand-ins, only their order matters; snapshot retention is left out: it reaps from the end of the (term, index) order and never changes the newest one)",
         "recording PinTracker behind a real in-process gorpc server (calls recorded in arrival order; a slow Track handler stands for a busy tracker); in-memory datastore as cmdutils.raftStateManager.GetStore provides",
     ],
     "assumptions": [
@@ -90,13 +93,16 @@ META = {
             "reachable_snapBound) and, for a caught-up peer of any LogPin/LogUnpin history, exactly the replay of the whole sequence (clean_shutdown_offline_caught_up); the context-bound variant is refuted "
             "(ctx_bound_shutdown_loses_acknowledged; it needs both of its sites and a cancelled context: ctx_bound_needs_both_sites_and_a_cancelled_ctx); an applied entry hands exactly its pin to the tracker (tracker_handoff); "
             "the data-folder tools SnapshotSave / CleanupRaft / Consensus.Clean / OfflineState over one node's folder: for every history of starts, operations, snapshots, clean shutdowns, imports and cleanups "
-            "every reader sees exactly the acknowledged state and no cleanup is acknowledged under a running node (folder_model_meets_spec, import_restart_op_shutdown, clean_guarded; refuted: unguarded_clean_fails, stale_import_fails). The full-strength statements are refuted by "
+            "every reader sees exactly the acknowledged state and no cleanup is acknowledged under a running node (folder_model_meets_spec, import_restart_op_shutdown, clean_guarded; refuted: unguarded_clean_fails, stale_import_fails); with Raft terms and indexes in the folder model "
+            "(Model/C01FolderTerm) the shutdown snapshot is the folder's newest one iff its (term, index) is at or above the newest one there, i.e. iff its term is at least the imported one's "
+            "(shutdown_snapshot_newest_iff, shutdown_snapshot_newest_iff_term), so for EVERY folder whose newest snapshot has term >= 2 an import over it hides every operation acknowledged afterwards from the offline read "
+            "(kept_import_hides_later_ops = K01e; k01e_predicted_by_term_model: the model yields exactly the real observations), and the repair that writes term 1 / index 2 does not (fixed_import_shutdown_exact). The full-strength statements are refuted by "
             "kernel-checked witnesses where the code really breaks them (prefix_inv_fails / some_prefix_fails: go-libp2p-raft snapshots are not point-in-time, K09; "
             "decode_total_fails / caught_up_exact_fails: raw log entries with origins, no longer reachable through commit). The model is tied to the code by driving the real FSM (and, thorough, real Raft "
             "nodes incl. SIGKILL and InstallSnapshot) with seeded event scripts and, in both tiers, one real Raft node shut down with live / deadline-bound / expired / cancelled contexts whose data folder is then read offline) plus the data-folder tools on a real node's folder (suite fold) and comparing every observation with the model, and the Spec clauses are evaluated on the implementation's observations.",
     "note": "Trusted: Lean kernel, hand-written model/spec, Raft's log replication and durability (hashicorp/raft, boltdb), the harness playing Raft's role at FSM level, "
             "the hook files consensus/raft/verif_export_c01.go and verif_export_c01gate.go. Known finding K09 (snapshot not point-in-time) is reproduced and reported, not hidden; "
             "K01a/K01b (undecodable operations acknowledged) and K29 (hand-off order) are fixed in /repo (3d753d4, 2ba6875) and suppress nothing. Round 8b finding (proposal K01e, notes/C01.md): after SnapshotSave over an existing snapshot the Raft term restarts below the imported snapshot's term, so the "
-            "shutdown snapshot sorts below the imported one and OfflineState misses the operations acknowledged since - reported by suite fold (folder_exact) until the entry is accepted.",
+            "shutdown snapshot sorts below the imported one and OfflineState misses the operations acknowledged since - reported by suite fold (folder_exact) as KNOWN-FINDING K01e; since round 8c the term-aware folder model predicts it (the cases agree with the model).",
     "technique": "Lean 4 invariants by induction over event sequences + refutation witnesses + differential correspondence (FSM-level deterministic, real Raft thorough)",
 }
